@@ -841,7 +841,12 @@ func (h *packetHandlerMap) ReplaceWithClosed(ids []protocol.ConnectionID, connCl
 	time.AfterFunc(expiry, func() {
 		h.mutex.Lock()
 		for _, id := range ids {
-			delete(h.handlers, id)
+			// A connection ID can have been handed to a new connection in the meantime:
+			// with zero-length source connection IDs every connection dialed from this
+			// Transport uses the same (empty) one. Only remove our own stand-in.
+			if h.handlers[id] == handler {
+				delete(h.handlers, id)
+			}
 		}
 		if len(h.handlers) == 0 {
 			t := (*Transport)(h)
